@@ -24,7 +24,13 @@ ASSUME = [
     "signatures, DER validity and hashes are checked by the harness's relying-party walk (rpki-rs), not by the theorems",
     "the relying-party predicates are evaluated when no task is due and every CA holds the certificate its parent currently issues "
     "(the periodic child->parent refresh has caught up)",
-    "quiescent_valid_partial covers one CA level without key rolls; the hierarchy/key-roll composition is checked dynamically only",
+    "quiescent_valid_partial covers one CA level without key rolls; quiescent_valid_tree lifts per-node conditions to any hierarchy; "
+    "that every node meets them along every history (mirror for ASPA/router/child certificates, unexpired/unrevoked, parent and "
+    "child agree on the child's certificate) is checked dynamically: the model's TreeValid and payload walks run on the real "
+    "repository content (stream rptree)",
+    "rptree: signature verdicts come from rpki-rs (an object whose signature fails is exported with a fresh issuer key); problem "
+    "kinds outside the abstraction (profile/URI strictness: sia/aia/crldp mismatches, duplicate serials, not-yet-valid, …) make "
+    "the comparison of that line one-directional; resource sets are whole atoms",
 ]
 
 
@@ -44,13 +50,41 @@ def roaobj(ctx):
     return vlib.judge_traces(ctx, "roaobj", "roaobj", traces, roaobj_sig)
 
 
+def rptree_sig(case, idx, verdict):
+    op = case["ops"][idx][0].split()
+    if verdict.startswith("FAIL oracle"):
+        return "oracle:" + ",".join(sorted(set(verdict.split()[2:]))) + ":rptree-" + op[0]
+    return "model:rptree-" + op[0]
+
+
+def rptree(ctx, traces):
+    """The Lean relying-party model itself (TreeValid, treeVrps, treeAspas, treeRouterKeys of Sys/Rp.lean)
+    executed on the real repository content every observation exports (`rp.abstract`) and compared with the
+    rpki-rs walk's verdict on the same line; on quiescent lines PayloadsExact against the configuration."""
+    import vlib
+    validated = ctx.traces_validated
+    found = vlib.judge_traces(ctx, "system", "rptree", traces, rptree_sig)
+    ctx.traces_validated = validated          # the same cases as the sysobjects driver judged
+    counts = {k[len("rptree:"):]: v for k, v in ctx.hist.items() if k.startswith("rptree:") and k != "rptree:skip"}
+    note = ("rptree: TreeValid/treeVrps/treeAspas/treeRouterKeys executed on the real repository content of "
+            f"{sum(counts.values())} observations and compared with the rpki-rs walk: "
+            + ", ".join(f"{k}={v}" for k, v in sorted(counts.items())))
+    ctx.notes[:] = [n for n in ctx.notes if not n.startswith("rptree: ")] + [note]
+    return found
+
+
 def check(ctx):
-    return objlib.run(ctx, QUICK, THOROUGH, RULE + "; stream roaobj: Roas::create_updates/mode/create_renewal/"
+    return objlib.run(ctx, QUICK, THOROUGH, RULE + "; stream system judged a second time by `kmodel rptree`: the Lean "
+                      "relying-party model (TreeValid, treeVrps, treeAspas, treeRouterKeys) runs on the repository content "
+                      "each observation exports (certificates, files per publication point, catalog hash -> decoded object) "
+                      "and must agree with the rpki-rs walk on validity and on the extracted payloads; on quiescent lines "
+                      "PayloadsExact(model walk, configured ∩ covered)" + "; stream roaobj: Roas::create_updates/mode/create_renewal/"
                       "apply_updates called directly (krill::verif::roa_objects) on an evolving Roas value with "
                       "route sets, claimed resources and both thresholds varied per op",
                       ASSUME, extra_bins=["roaobj"], extra_stream=roaobj,
                       # body of Roas::mode regenerated from the source; C01Src: generated definition = model function
-                      translate=[("pure_fns:C01", "PureFns.lean")], extra_modules=["KrillModel.Props.C01Src"])
+                      translate=[("pure_fns:C01", "PureFns.lean")], extra_modules=["KrillModel.Props.C01Src"],
+                      also_judge=rptree)
 
 
 def replay(ctx, data):
